@@ -7,6 +7,8 @@ import (
 	"flag"
 	"fmt"
 	"os"
+	"path/filepath"
+	"sort"
 
 	"github.com/luno/workflow/verifharness/leandrv"
 	"github.com/luno/workflow/verifharness/pure"
@@ -40,6 +42,61 @@ func main() {
 	verbose := fs.Bool("v", false, "keep observation lines in samples")
 	file := fs.String("file", "", "replay file (sim-replay)")
 	fs.Parse(os.Args[2:])
+	if name == "corpus" {
+		// minimised past failures run first on every check: each must stay clean on the current tree
+		res := report.New(name, *seed, *tier)
+		res.Rule = "replay of every history in /verif/corpus (past failures, fixed defects) on the real code with all monitors, co-simulated with the model"
+		files, _ := filepath.Glob("/verif/corpus/*.json")
+		sort.Strings(files)
+		var d *leandrv.Driver
+		var err error
+		if os.Getenv("WFH_NOMODEL") != "" {
+			d = &leandrv.Driver{Null: true}
+			res.NoModel = true
+		} else if d, err = leandrv.Start(); err != nil {
+			fmt.Fprintln(os.Stderr, "cannot start the Lean driver:", err)
+			os.Exit(3)
+		}
+		for _, f := range files {
+			var body struct {
+				ID     string      `json:"id"`
+				Replay sim.History `json:"replay"`
+			}
+			b, err := os.ReadFile(f)
+			if err == nil {
+				err = json.Unmarshal(b, &body)
+			}
+			if err != nil {
+				fmt.Fprintln(os.Stderr, f, err)
+				os.Exit(3)
+			}
+			viol, _, diffs, err := sim.ReplayD(d, body.Replay)
+			if err != nil {
+				fmt.Fprintln(os.Stderr, f, err)
+				os.Exit(3)
+			}
+			res.Eval(len(body.Replay.Actions))
+			res.NonTrivial(f)
+			res.Traces++
+			for _, v := range viol {
+				v.Replay = body.Replay
+				v.Detail = "[corpus " + filepath.Base(f) + "] " + v.Detail
+				res.Violate(v)
+			}
+			if len(diffs) > 0 {
+				res.Disagree(report.Disagreement{Properties: []string{"C01", "C02", "C03", "C04", "C05", "C07", "C08", "C09", "C12", "C13", "C14", "C15", "C16"},
+					Where: "corpus " + filepath.Base(f), Input: body.Replay, Impl: diffs[0], Model: diffs[1]})
+			}
+			res.Sample(map[string]any{"file": filepath.Base(f), "actions": len(body.Replay.Actions)})
+		}
+		res.ModelLines = d.N
+		d.Close()
+		if *out != "" {
+			res.Write(*out)
+		}
+		fmt.Printf("suite=%s evaluations=%d files=%d violations=%d disagreements=%d\n", name, res.Evaluations, len(files), len(res.Violations), len(res.Disagreements))
+		return
+	}
 	if name == "sim-replay" {
 		var body struct {
 			Replay sim.History `json:"replay"`
